@@ -37,6 +37,8 @@ fn res_err(e: FeoxError) -> Res {
 fn apply(store: &FeoxStore, key: &[u8], op: &OpKind) -> Res {
     match op {
         OpKind::Get => store.get(key).map(Res::Value).unwrap_or_else(res_err),
+        // odd-length values take the zero-copy Bytes entry point, even-length ones the slice entry point
+        OpKind::Insert(v, t) if v.len() % 2 == 1 => store.insert_bytes_with_timestamp(key, bytes::Bytes::copy_from_slice(v), *t).map(Res::Bool).unwrap_or_else(res_err),
         OpKind::Insert(v, t) => store.insert_with_timestamp(key, v, *t).map(Res::Bool).unwrap_or_else(res_err),
         OpKind::Delete(t) => store.delete_with_timestamp(key, *t).map(|_| Res::Unit).unwrap_or_else(res_err),
         OpKind::Cas(e, n, t) => store.compare_and_swap_with_timestamp(key, e, n, *t).map(Res::Bool).unwrap_or_else(res_err),
@@ -294,6 +296,21 @@ fn one_history(store: &Arc<FeoxStore>, cfg: &Cfg, seed: u64, hid: u64, explicit:
         let inv = tick();
         let res = apply(store, &keys[j], &OpKind::Get);
         let ret = tick();
+        // quiescent cross-check of the two indexes through the public API (C14)
+        if let Ok(pairs) = store.range_query(&keys[j], &keys[j], 10) {
+            let by_range = pairs.first().map(|p| p.1.clone());
+            let by_get = match &res {
+                Res::Value(v) => Some(v.clone()),
+                _ => None,
+            };
+            if by_range != by_get {
+                return Some((
+                    "lin:index-disagree".into(),
+                    format!("[{label}] at quiescence get({}) = {:?} but range_query over exactly that key = {:?}", hex(&keys[j]), by_get.as_ref().map(|v| values::describe(v)), by_range.as_ref().map(|v| values::describe(v))),
+                    json!({"engine": "conc", "mode": "lin", "seed": seed, "history": hid, "label": label}),
+                ));
+            }
+        }
         per_key[j].push(Event { thread: 99, op: OpKind::Get, res, inv, ret });
     }
     report.evaluations += 1;
